@@ -123,7 +123,8 @@ fn map_orders(lib: &Library) -> Vec<(String, Vec<i16>)> {
     let layers = lib.layers.read().unwrap();
     // signature by layer *name* (numbers may repeat), mapped to a small integer
     let num = |k: &LayerKey| -> i16 {
-        layers.get(*k).map(|l| l.name.as_ref().and_then(|n| LAYER_NAMES.iter().position(|x| x == n)).map(|p| p as i16 + 1).unwrap_or(100 + l.layernum)).unwrap_or(-1)
+        // (layers without a name: by their position in the layer set, which is what tells them apart)
+        layers.get(*k).map(|l| l.name.as_ref().and_then(|n| LAYER_NAMES.iter().position(|x| x == n)).map(|p| p as i16 + 1).unwrap_or_else(|| 100 + layers.slots.keys().position(|x| x == *k).unwrap_or(99) as i16)).unwrap_or(-1)
     };
     let mut out = vec![];
     for (ci, c) in lib.cells.iter().enumerate() {
@@ -213,6 +214,13 @@ pub fn convert_once(case: &Case) -> Result<(Vec<(String, Vec<i16>)>, String), St
                 for k in 0..3 {
                     let ext = Ptr::new(Cell::from(Layout { name: format!("outside{k}"), insts: vec![], elems: vec![], annotations: vec![] }));
                     top.layout.as_mut().unwrap().insts.push(Instance { inst_name: format!("io{k}"), cell: ext, loc: Point::new(50 * k, 7), reflect_vert: false, angle: None });
+                }
+            }
+            if case.dup_layer_nums && case.two_shapes {
+                // layers without names (as GDSII import creates them): the element order may not lean on names
+                let mut layers = lib.layers.write().map_err(|_| "lock".to_string())?;
+                for (_, l) in layers.slots.iter_mut() {
+                    l.name = None;
                 }
             }
             let sig = map_orders(&lib);
@@ -859,7 +867,7 @@ impl CaseDriver for C20 {
     }
     fn describe(&self, _tier: Tier) -> Describe {
         Describe {
-            rule: "inputs: raw libraries with 1-2 abstract cells whose 1-2 ports carry shapes on 1-3 layers and whose blockages sit on 0/2/3 layers (unordered maps with 1-3 keys, every insertion order), 1-2 shapes per layer, plus a layout cell with elements on 3 layers x 2 purposes, an annotation and a reflected+rotated instance; LEF / protobuf / GDSII inputs derived from them in a fixed order. Conversions: raw->GDSII (bytes, dates pinned), raw->protobuf (prost bytes), raw->LEF (serde_json), LEF->raw->LEF, protobuf->raw->protobuf, GDSII->raw, raw->GDSII->raw, LEF text (no VERSION / 5.8 / 5.4, with or without END LIBRARY, with or without statements only versions <= 5.4 allow; a reader error is a result like any other)->raw->LEF, gridded layout->raw (raw results as an order-preserving dump; the gridded cell optionally holds two instances abutting along the tracks; a parent-first library whose top cell also holds five array instances; and a cell with two port-relative net assignments on instances whose heap addresses swap between rebuilds), and two conversions whose result is an error - GDSII->raw on struct rings of 2..4 closed by SREF / AREF (optionally a second ring, either listing order) or on four to nine structs one of whose names is defined twice (optionally with a reference that matches two structs only up to letter case), raw->protobuf on cell rings, raw->GDSII / raw->protobuf of an element whose layer does not define its purpose, raw->protobuf of an unnamed instance rotated by 22.5 degrees, LEF->raw->LEF with a supplied layer that has no name of its own and is indexed under 2..3 names the LEF uses, and gridded layout->raw of a cut lying under an instance / of two overlapping cuts - where the rendered error is the compared output. Configurations: every input is rebuilt / re-imported with fresh HashMaps until each of the k! iteration orders of every map the exporter walks has been observed on the very map objects (minimum 32, cap 4096 rebuilds; coverage measured and reported as tags), plus fresh OS processes, plus the same input once more after each of three *other* inputs went through the same conversion in the same process (no state carried from one library to the next); conversions that expose no map (GDSII->raw) are repeated 32 times - unordered containers internal to a converter cannot be enumerated, only exercised. Two of the three layers may share a layer number, and then the other layers also define each purpose under two numbers and every layer defines an outline purpose. A state is (input, conversion); non-trivial = some map has >= 2 keys.".into(),
+            rule: "inputs: raw libraries with 1-2 abstract cells whose 1-2 ports carry shapes on 1-3 layers and whose blockages sit on 0/2/3 layers (unordered maps with 1-3 keys, every insertion order), 1-2 shapes per layer, plus a layout cell with elements on 3 layers x 2 purposes, an annotation and a reflected+rotated instance; LEF / protobuf / GDSII inputs derived from them in a fixed order. Conversions: raw->GDSII (bytes, dates pinned), raw->protobuf (prost bytes), raw->LEF (serde_json), LEF->raw->LEF, protobuf->raw->protobuf, GDSII->raw, raw->GDSII->raw, LEF text (no VERSION / 5.8 / 5.4, with or without END LIBRARY, with or without statements only versions <= 5.4 allow; a reader error is a result like any other)->raw->LEF, gridded layout->raw (raw results as an order-preserving dump; the gridded cell optionally holds two instances abutting along the tracks; a parent-first library whose top cell also holds five array instances; and a cell with two port-relative net assignments on instances whose heap addresses swap between rebuilds), and two conversions whose result is an error - GDSII->raw on struct rings of 2..4 closed by SREF / AREF (optionally a second ring, either listing order) or on four to nine structs one of whose names is defined twice (optionally with a reference that matches two structs only up to letter case), raw->protobuf on cell rings, raw->GDSII / raw->protobuf of an element whose layer does not define its purpose, raw->protobuf of an unnamed instance rotated by 22.5 degrees, LEF->raw->LEF with a supplied layer that has no name of its own and is indexed under 2..3 names the LEF uses, and gridded layout->raw of a cut lying under an instance / of two overlapping cuts - where the rendered error is the compared output. Configurations: every input is rebuilt / re-imported with fresh HashMaps until each of the k! iteration orders of every map the exporter walks has been observed on the very map objects (minimum 32, cap 4096 rebuilds; coverage measured and reported as tags), plus fresh OS processes, plus the same input once more after each of three *other* inputs went through the same conversion in the same process (no state carried from one library to the next); conversions that expose no map (GDSII->raw) are repeated 32 times - unordered containers internal to a converter cannot be enumerated, only exercised. Two of the three layers may share a layer number, and then the other layers also define each purpose under two numbers and every layer defines an outline purpose; raw->GDSII also with all layers unnamed. A state is (input, conversion); non-trivial = some map has >= 2 keys.".into(),
             assumptions: vec!["an unordered map in the raw data model itself is rendered sorted (a map has no order); every ordered container must keep its order".into()],
             excluded: vec!["gridded layout -> raw is exercised on three stacks x a few cells only (the C08 alphabet is not re-enumerated here)".into()],
             technique: "exhaustive enumeration of hash-map iteration orders (observed on the real map objects) x inputs x conversions; outputs compared byte-for-byte within and across processes".into(),
